@@ -50,7 +50,7 @@ Section Lemmas.
           bind (sorted_keys x key items st1) (fun kis st2 =>
             match sort_keyed kis with
             | Some sorted => Ok (VList sorted) st2
-            | None => Stuck "sorted: keys are not comparable numbers"
+            | None => ext "$sorted" [VList (map fst kis); VList (map snd kis)] [] st2
             end)
       end).
   Proof.
@@ -58,6 +58,89 @@ Section Lemmas.
     destruct (container_items v) as [items|]; [|reflexivity].
     f_equal. revert st1. induction items as [|i r IH]; intros st1; [reflexivity|].
     cbn [sorted_keys]. destruct (eval ext key (set_var x i st1)) as [k st'|n st'|w]; cbn [bind]; try reflexivity.
+    rewrite IH. reflexivity.
+  Qed.
+
+  (* the loop of [SForC] (a `for` whose body may `continue`) as a top-level function *)
+  Fixpoint forc_loop (x : string) (body : stmt) (l : list val) (st : state) {struct l} : outcome ctl :=
+    match l with
+    | [] => Ok CNormal st
+    | i :: r =>
+        match exec ext body (set_var x i st) with
+        | Ok CNormal st' => forc_loop x body r st'
+        | Ok (CReturn w) st' => Ok (CReturn w) st'
+        | Exc n st' => if String.eqb n "$continue" then forc_loop x body r st' else Exc n st'
+        | Stuck w => Stuck w
+        end
+    end.
+
+  Lemma exec_forc x e body st :
+    exec ext (SForC x e body) st =
+    bind (eval ext e st) (fun v st1 =>
+      match iter_items v with
+      | None => Stuck "for over a non-container"
+      | Some items => forc_loop x body items st1
+      end).
+  Proof.
+    cbn [exec]. destruct (eval ext e st) as [v st1|n st1|w]; cbn [bind]; try reflexivity.
+    destruct (iter_items v) as [items|]; [|reflexivity].
+    revert st1. induction items as [|i r IH]; intros st1; [reflexivity|].
+    cbn [forc_loop]. destruct (exec ext body (set_var x i st1)) as [c st'|n st'|w]; try reflexivity.
+    - destruct c; [apply IH|reflexivity].
+    - destruct (String.eqb n "$continue"); [apply IH|reflexivity].
+  Qed.
+
+  (* the handler selection of [STryExc] as a top-level function *)
+  Fixpoint pick_handler (n : string) (st1 : state) (hs : list (list string * stmt)) {struct hs} : outcome ctl :=
+    match hs with
+    | [] => Exc n st1
+    | (names, h) :: r =>
+        if exc_matches n names then exec ext h (set_var "$exc" (VStr n) st1) else pick_handler n st1 r
+    end.
+
+  Lemma exec_tryexc body handlers st :
+    exec ext (STryExc body handlers) st =
+    match exec ext body st with
+    | Exc n st1 => pick_handler n st1 handlers
+    | o => o
+    end.
+  Proof.
+    cbn [exec]. destruct (exec ext body st) as [c st1|n st1|w]; try reflexivity.
+    induction handlers as [|[names h] r IH]; [reflexivity|].
+    cbn [pick_handler]. destruct (exc_matches n names); [reflexivity|exact IH].
+  Qed.
+
+  (* the item loop of [EListComp] as a top-level function *)
+  Fixpoint comp_loop (elt : expr) (x : string) (names : list string) (cond : expr) (l : list val) (st : state)
+      {struct l} : outcome (list val) :=
+    match l with
+    | [] => Ok [] st
+    | i :: r =>
+        bind (bind_item x names i st) (fun _ st' =>
+          bind (eval ext cond st') (fun c st2 =>
+            if truthy c
+            then bind (eval ext elt st2) (fun y st3 =>
+                   bind (comp_loop elt x names cond r st3) (fun ys st4 => Ok (y :: ys) st4))
+            else comp_loop elt x names cond r st2))
+    end.
+
+  Lemma eval_listcomp elt x names it cond st :
+    eval ext (EListComp elt x names it cond) st =
+    bind (eval ext it st) (fun v st1 =>
+      match (if foreign v then None else container_items v) with
+      | None => Stuck "comprehension over a non-container"
+      | Some items =>
+          bind (comp_loop elt x names cond items st1) (fun ys st2 =>
+            Ok (VList ys) (restore_vars (x :: names) (vars st1) st2))
+      end).
+  Proof.
+    cbn [eval]. destruct (eval ext it st) as [v st1|n st1|w]; cbn [bind]; try reflexivity.
+    destruct (if foreign v then None else container_items v) as [items|]; [|reflexivity].
+    f_equal. generalize st1. induction items as [|i r IH]; intros st0; [reflexivity|].
+    cbn [comp_loop]. destruct (bind_item x names i st0) as [u st'|n st'|w]; cbn [bind]; try reflexivity.
+    destruct (eval ext cond st') as [c st2|n st2|w]; cbn [bind]; try reflexivity.
+    destruct (truthy c); [|apply IH].
+    destruct (eval ext elt st2) as [y st3|n st3|w]; cbn [bind]; try reflexivity.
     rewrite IH. reflexivity.
   Qed.
 
